@@ -15,6 +15,8 @@ import Driver.Link
 import Driver.CodePair
 import Driver.Entity
 import Driver.NodeRender
+import Driver.Block
+import Driver.Inline
 
 def dispatch (line : String) : String :=
   match line.trimAscii.toString.splitOn " " with
@@ -34,6 +36,8 @@ def dispatch (line : String) : String :=
   | "codepair" :: args => Driver.CodePair.handle args
   | "entity" :: args => Driver.Entity.handle args
   | "noderender" :: args => Driver.NodeRender.handle args
+  | "block" :: args => Driver.Block.handle args
+  | "inline" :: args => Driver.Inline.handle args
   | _ => "bad-stream"
 
 partial def loop (h : IO.FS.Stream) (out : IO.FS.Stream) : IO Unit := do
